@@ -34,6 +34,29 @@ def py_metric(x, y):  # deliberately NOT jitted: nn_descent fails to compile wit
     return float(np.abs(x - y).sum())
 
 
+class _Interrupter:
+    """stands in for sys.stdout: the first progress line containing `needle` is answered with KeyboardInterrupt"""
+    def __init__(self, needle):
+        self.needle = needle
+
+    def write(self, text):
+        if self.needle in text:
+            raise KeyboardInterrupt()
+        return len(text)
+
+    def flush(self):
+        pass
+
+
+def interrupted(thunk, needle):
+    old = sys.stdout
+    sys.stdout = _Interrupter(needle)
+    try:
+        return thunk()
+    finally:
+        sys.stdout = old
+
+
 def scenarios(rng, tier):
     X = rng.standard_normal((70, 4)).astype(np.float32)
     S = sp.random(70, 12, density=0.4, format="csr", dtype=np.float32, random_state=int(rng.integers(1 << 30)))
@@ -53,6 +76,18 @@ def scenarios(rng, tier):
                     lambda nj=nj, cfg=cfg: NNDescent(X if rng.integers(2) else S, n_neighbors=5, n_jobs=nj, random_state=1, **cfg).prepare()))
         out.append(("ok-transformer-fit-transform", nj,
                     lambda nj=nj: pynndescent.PyNNDescentTransformer(n_neighbors=5, n_jobs=nj, random_state=1).fit(X).transform(X_QUERY)))
+        out.append(("ok-sparse-parallel-batch-prepare-query", nj,
+                    lambda nj=nj: NNDescent(S, metric="cosine", n_neighbors=5, n_jobs=nj, random_state=1, parallel_batch_queries=True).query(S[:3], k=3)))
+        out.append(("ok-dense-parallel-batch-prepare", nj,
+                    lambda nj=nj: NNDescent(X, n_neighbors=5, n_jobs=nj, random_state=1, parallel_batch_queries=True).prepare()))
+        # "raises" includes what is not an Exception subclass: Ctrl-C while the (verbose) build prints its progress
+        out.append(("fail-interrupt-in-constructor", nj, lambda nj=nj: interrupted(lambda: NNDescent(X, n_neighbors=5, n_jobs=nj, random_state=1, verbose=True), "NN descent")))
+
+        def prep_interrupt(nj=nj):
+            idx = NNDescent(X, n_neighbors=5, n_jobs=nj, random_state=1)
+            idx.verbose = True
+            return ("prepare-interrupt", idx)
+        out.append(("fail-interrupt-in-prepare", nj, prep_interrupt))
         out.append(("fail-sparse-unsupported-metric", nj,
                     lambda nj=nj: NNDescent(S, metric="mahalanobis", n_neighbors=5, n_jobs=nj, random_state=1)))
         out.append(("fail-init-graph-size", nj,
@@ -98,6 +133,9 @@ def run_one(res, name, nj, thunk, start):
                 r[1].prepare()
             else:
                 r[1].query(X_QUERY, k=3)
+        elif isinstance(r, tuple) and r[0] == "prepare-interrupt":
+            del CALLS[:]
+            interrupted(r[1].prepare, "diversification")
         elif isinstance(r, tuple) and r[0] == "prepare":
             mid = numba.get_num_threads()
             if mid != before:
